@@ -44,6 +44,11 @@ def run(tier):
                         filter="admits one code object (each in turn) or everything", k="symbolic int"),
             rule="one path = (code-filter choice, class of k); the real tracer consumes the recorded events (real code objects, real f_lasti)",
             describe=H.describe, max_samples=4, validate_limit=50))
+    import harness.c18 as H18
+    jobs.append(Job("harness.c18", "abandon", [sh for sh in H18.shards("abandon") if sh.get("t0", 0) == 0], 200,
+                    bounds=dict(script="a suspended generator is abandoned, its frame object dies, a new frame (at the dead frame's address when the "
+                                       "allocator allows) makes a complete call", sampling="off"),
+                    rule="one path = (script, value shapes); only the NEW call's trace is judged", describe=H18.describe, max_samples=10**6, validate_limit=200))
     return run_check(PID, tier, jobs, H.FUNCTIONS, ASSUMPTIONS + [
         "realrun: the events are those CPython really delivered for the fixture workload in this process (recorded natively before the "
         "exploration); frames are proxies carrying the recorded code object, f_lasti, f_locals snapshot, globals and caller locals"],
